@@ -218,15 +218,17 @@ fn eval_header(c: &HdrCase) -> Verdict {
     // every strict prefix of the written header is an error for the stream reader (never a shorter header)
     for k in 0..n {
         let mut rd = OneByte { d: &bytes[..k], pos: 0 };
-        match vkit::catch(|| data::Entry::from_read(&mut rd, c.pack_offset, 20)) {
-            Ok(Err(_)) => {}
-            Ok(Ok(e)) => return bad("truncated-accepted", format!("prefix of {k}/{n} bytes decoded as {e:?}")),
-            Err(p) => return bad("truncated-panic", format!("prefix of {k}/{n} bytes: {p}")),
+        if let Ok(e) = data::Entry::from_read(&mut rd, c.pack_offset, 20) {
+            return bad("truncated-accepted", format!("prefix of {k}/{n} bytes decoded as {e:?}"));
         }
     }
     let size_bytes = ref_encode_size(type_id, c.size).len();
     let extra = n - size_bytes;
-    ok(format!("{}/size-bytes={}/extra-bytes={}", KIND_NAMES[c.kind as usize], size_bytes, extra))
+    if c.kind == 4 {
+        ok(format!("ofs/distance-bytes={extra}"))
+    } else {
+        ok(format!("{}/size-bytes={}", KIND_NAMES[c.kind as usize], size_bytes))
+    }
 }
 
 // ---------------------------------------------------------------------------------------------------------------
@@ -513,7 +515,13 @@ fn eval_pack_case(c: &PackCase) -> Verdict {
     let Some(built) = build_pack_case(c) else { return ok_trivial("not-constructible") };
     let dir = scratch::Dir::new("c07p");
     let repo = dir.join("r.git");
-    git::init_bare(&repo);
+    // a minimal bare repository made by hand (saves one git process per case)
+    for d in ["objects/pack", "refs/heads"] {
+        if let Err(e) = std::fs::create_dir_all(repo.join(d)) {
+            vkit::machinery!("mkdir: {e}");
+        }
+    }
+    write_file(&repo.join("HEAD"), b"ref: refs/heads/main\n");
     let name = sha1(&built.pack[..built.pack.len() - 20]).to_string();
     let pack_path = repo.join(format!("objects/pack/pack-{name}.pack"));
     write_file(&pack_path, &built.pack);
@@ -574,6 +582,7 @@ struct Fix {
     commit: Vec<String>,
     index: HashMap<String, usize>,
     by_blob: HashMap<String, usize>,
+    pair_commit: HashMap<(String, String), String>,
 }
 
 fn block(ch: char) -> Vec<u8> {
@@ -594,41 +603,61 @@ fn text_of(name: &str) -> Vec<u8> {
     v
 }
 
-fn build_fixture(names: Vec<String>) -> Fix {
+const IDENT: &str = "author A U Thor <author@example.com> 1112911993 +0100\ncommitter C O Mitter <committer@example.com> 1112911993 +0100\n";
+
+/// `git hash-object -w -t <kind> --stdin-paths` over one file per content: ids in order (one git process for all)
+fn hash_objects_batch(repo: &Path, dir: &Path, kind: &str, contents: &[Vec<u8>]) -> Vec<String> {
+    if contents.is_empty() {
+        return Vec::new();
+    }
+    let mut paths = String::new();
+    for (i, t) in contents.iter().enumerate() {
+        let p = dir.join(format!("{kind}{i}"));
+        write_file(&p, t);
+        paths.push_str(&format!("{}\n", p.display()));
+    }
+    let out = git::git_in(repo, &["hash-object", "-w", "-t", kind, "--stdin-paths"], paths.as_bytes());
+    let ids: Vec<String> = String::from_utf8_lossy(&out).lines().map(str::to_string).collect();
+    if ids.len() != contents.len() {
+        vkit::machinery!("hash-object returned {} ids for {} files", ids.len(), contents.len());
+    }
+    for i in 0..contents.len() {
+        let _ = std::fs::remove_file(dir.join(format!("{kind}{i}")));
+    }
+    ids
+}
+
+/// Build the shared repository: one blob/tree/root-commit per text, and for every ordered pair (base,target) a commit
+/// with tree(target) and parent commit(base) so that `pack-objects --thin --revs` sees base's blob as preferred delta base.
+fn build_fixture(names: Vec<String>, pairs: &[(String, String)]) -> Fix {
     let dir = scratch::Dir::new("c07fix").keep();
     let repo = dir.join("r.git");
     git::init_bare(&repo);
     let blocks: HashMap<char, Vec<u8>> = "abEFZ".chars().filter(|c| names.iter().any(|n| n.contains(*c))).map(|c| (c, block(c))).collect();
     let texts: Vec<Vec<u8>> = names.iter().map(|n| n.chars().flat_map(|c| blocks[&c].iter().copied()).collect()).collect();
-    let mut paths = String::new();
-    for (i, t) in texts.iter().enumerate() {
-        let p = dir.join(format!("t{i}"));
-        write_file(&p, t);
-        paths.push_str(&format!("{}\n", p.display()));
-    }
-    let out = git::git_in(&repo, &["hash-object", "-w", "--stdin-paths"], paths.as_bytes());
-    let blob: Vec<String> = String::from_utf8_lossy(&out).lines().map(str::to_string).collect();
-    if blob.len() != names.len() {
-        vkit::machinery!("hash-object returned {} ids for {} files", blob.len(), names.len());
-    }
+    let blob = hash_objects_batch(&repo, &dir, "blob", &texts);
     for (i, t) in texts.iter().enumerate() {
         if gix_object::compute_hash(SHA1, Kind::Blob, t).to_string() != blob[i] {
             vkit::machinery!("blob id mismatch in fixture for text {}", names[i]);
         }
-        let _ = std::fs::remove_file(dir.join(format!("t{i}")));
     }
-    let mut tree = Vec::new();
-    let mut commit = Vec::new();
-    for b in &blob {
-        let t = git::git_in(&repo, &["mktree"], format!("100644 blob {b}\tf\n").as_bytes());
-        let t = String::from_utf8_lossy(&t).trim().to_string();
-        let c = git::git_text(&repo, &["commit-tree", "-m", "base", &t]);
-        tree.push(t);
-        commit.push(c);
+    let tree_in: String = blob.iter().map(|b| format!("100644 blob {b}\tf\n\n")).collect();
+    let out = git::git_in(&repo, &["mktree", "--batch"], tree_in.as_bytes());
+    let tree: Vec<String> = String::from_utf8_lossy(&out).lines().map(str::to_string).collect();
+    if tree.len() != blob.len() {
+        vkit::machinery!("mktree --batch returned {} ids for {} trees", tree.len(), blob.len());
     }
-    let index = names.iter().cloned().enumerate().map(|(i, n)| (n, i)).collect();
+    let commits: Vec<Vec<u8>> = tree.iter().map(|t| format!("tree {t}\n{IDENT}\nbase\n").into_bytes()).collect();
+    let commit = hash_objects_batch(&repo, &dir, "commit", &commits);
+    let index: HashMap<String, usize> = names.iter().cloned().enumerate().map(|(i, n)| (n, i)).collect();
+    let pair_contents: Vec<Vec<u8>> = pairs
+        .iter()
+        .map(|(b, t)| format!("tree {}\nparent {}\n{IDENT}\npair\n", tree[index[t]], commit[index[b]]).into_bytes())
+        .collect();
+    let pair_ids = hash_objects_batch(&repo, &dir, "commit", &pair_contents);
+    let pair_commit = pairs.iter().cloned().zip(pair_ids).collect();
     let by_blob = blob.iter().cloned().enumerate().map(|(i, n)| (n, i)).collect();
-    Fix { repo, names, texts, blob, tree, commit, index, by_blob }
+    Fix { repo, names, texts, blob, tree, commit, index, by_blob, pair_commit }
 }
 
 #[derive(Serialize, Deserialize, Hash, Clone, Debug)]
@@ -673,7 +702,9 @@ fn eval_thin(fix: &Fix, c: &ThinCase) -> Verdict {
     let (Some(&b), Some(&t)) = (fix.index.get(&c.base), fix.index.get(&c.target)) else {
         vkit::machinery!("case names texts that are not in the fixture: {c:?}")
     };
-    let cpair = git::git_text(&fix.repo, &["commit-tree", "-m", "pair", "-p", &fix.commit[b], &fix.tree[t]]);
+    let Some(cpair) = fix.pair_commit.get(&(c.base.clone(), c.target.clone())).cloned() else {
+        vkit::machinery!("no pair commit in the fixture for {c:?}")
+    };
     let stdin = format!("{cpair}\n^{}\n", fix.commit[b]);
     let pack_bytes = git::git_in(
         &fix.repo,
@@ -772,8 +803,8 @@ fn eval_full(fix: &Fix, c: &FullCase) -> Verdict {
     let mut args: Vec<String> = vec!["-c".into(), "pack.threads=1".into(), "pack-objects".into(), "-q".into()];
     args.push(format!("--window={}", c.window));
     args.push(format!("--depth={}", c.depth));
-    if c.ref_delta {
-        args.push("--no-delta-base-offset".into());
+    if !c.ref_delta {
+        args.push("--delta-base-offset".into());
     }
     args.push(dir.join("p").display().to_string());
     let out = git::git_in(&fix.repo, &args, stdin.as_bytes());
@@ -868,13 +899,17 @@ pub fn run(run: &'static Run) {
          x ofs distances {same boundaries, B_j=sum 128^i (+-2,+-1,+127,+128) for every encoded width 1..10, MAX} / 4 base ids, x 5 trailing-byte variants x 3 pack offsets; \
          decode-agreement: all byte strings = 32 first bytes (type 0..7 x low nibble {0,f} x continuation) followed by <=5 (quick) / <=7 (thorough) bytes over {00,01,7f,80,ff}; \
          git-reads-ours: packs assembled from gitoxide-written headers + stored zlib bodies, object sizes up to 2^18+1 (quick) / 2^25+1 (thorough) and ofs distances at the 1|2, 2|3, 3|4 (thorough: 4|5) byte boundaries; \
-         git-delta-*: texts = all block sequences of length<=3 over {a=16B,b=64B,E=0x10001B} (quick; thorough adds F=0xffb0B, length 4 over {a,b,E}, and a 16MiB block for 4-byte copy offsets), all ordered pairs (thin, ref-delta forced by git) and all unordered pairs x {ofs,ref}; \
+         git-delta-*: texts = all block sequences of length<=3 over {a=16B,b=64B,E=0x10001B} (quick; thorough adds F=0xffb0B, length 4 over {a,b,E}, and a 16MiB block for 4-byte copy offsets), all ordered pairs (thin, ref-delta forced by git) and all unordered pairs x {ofs} (quick) / {ofs,ref} (thorough); \
          non-trivial = header round-tripped through both decoders / git produced a delta and gitoxide reproduced the target",
     );
     run.assume("git 2.39.5 (index-pack, cat-file, pack-objects) as oracle for pack contents; hand-written stored-zlib streams and pack assembly are trusted harness code (git index-pack validates them)");
     run.assume("from_bytes is only called on complete headers (it documents a panic otherwise); sizes/distances beyond u64 are outside the domain");
     run.budget_secs(run.pick(38.0, 580.0));
 
+    let t0 = std::time::Instant::now();
+    let lap = |name: &str| {
+        run.cov(&format!("wall_s_until_after_{name}"), (t0.elapsed().as_secs_f64() * 10.0).round() / 10.0);
+    };
     // ---- header ----
     let sizes = sizes();
     let dists = distances();
@@ -889,9 +924,15 @@ pub fn run(run: &'static Run) {
                     let bases: &[u8] = if kind == 5 { &[0, 1, 2, 3] } else { &[0] };
                     for &distance in ds {
                         for &base in bases {
-                            for &pack_offset in &PACK_OFFSETS {
-                                for trailer in 0..TRAILERS.len() as u8 {
+                            for trailer in 0..TRAILERS.len() as u8 {
+                                if kind == 4 {
+                                    // ofs: the product size x distance is large; pair each trailer with one pack offset
+                                    let pack_offset = PACK_OFFSETS[trailer as usize % 3];
                                     emit(HdrCase { kind, size, distance, base, pack_offset, trailer });
+                                } else {
+                                    for &pack_offset in &PACK_OFFSETS {
+                                        emit(HdrCase { kind, size, distance, base, pack_offset, trailer });
+                                    }
                                 }
                             }
                         }
@@ -901,10 +942,11 @@ pub fn run(run: &'static Run) {
         },
         eval_header,
     );
+    lap("header");
     for w in 1..=10 {
-        let cls = format!("ofs/size-bytes=1/extra-bytes={w}");
+        let cls = format!("ofs/distance-bytes={w}");
         run.require(&format!("an ofs-delta distance of encoded width {w} was round-tripped"), run.is_replay() || run.outcome_count(&cls) > 0);
-        let cls = format!("blob/size-bytes={w}/extra-bytes=0");
+        let cls = format!("blob/size-bytes={w}");
         run.require(&format!("a size of encoded width {w} was round-tripped"), run.is_replay() || run.outcome_count(&cls) > 0);
     }
 
@@ -929,6 +971,7 @@ pub fn run(run: &'static Run) {
         },
         eval_agreement,
     );
+    lap("decode-agreement");
 
     // ---- git-reads-ours ----
     run.sub_with(
@@ -965,6 +1008,7 @@ pub fn run(run: &'static Run) {
         },
         eval_pack_case,
     );
+    lap("git-reads-ours");
 
     // ---- deltas made by git ----
     let mut names = text_names(&['a', 'b', 'E'], run.pick(3, 4));
@@ -989,25 +1033,29 @@ pub fn run(run: &'static Run) {
         }
     }
     run.cov("delta_texts", regular.len());
-    let fix = build_fixture(names);
+    let mut pairs: Vec<(String, String)> = Vec::new();
+    for t in &regular {
+        for b in &regular {
+            if b != t {
+                pairs.push((b.clone(), t.clone()));
+            }
+        }
+    }
+    pairs.extend(specials.iter().cloned());
+    let fix = build_fixture(names, &pairs);
     let fix = &fix;
+    lap("fixture");
     run.sub_with(
         "git-delta-thin",
         vkit::Opts::default().chunk(256),
         |emit| {
-            for t in &regular {
-                for b in &regular {
-                    if b != t {
-                        emit(ThinCase { base: b.clone(), target: t.clone() });
-                    }
-                }
-            }
-            for (b, t) in &specials {
+            for (b, t) in &pairs {
                 emit(ThinCase { base: b.clone(), target: t.clone() });
             }
         },
         |c| eval_thin(fix, c),
     );
+    lap("git-delta-thin");
     run.sub_with(
         "git-delta-full",
         vkit::Opts::default().chunk(256),
@@ -1015,6 +1063,10 @@ pub fn run(run: &'static Run) {
             for (i, a) in regular.iter().enumerate() {
                 for b in &regular[i + 1..] {
                     for ref_delta in [false, true] {
+                        // quick: ref-deltas are already covered by the thin packs
+                        if ref_delta && run.quick() {
+                            continue;
+                        }
                         emit(FullCase { texts: vec![a.clone(), b.clone()], ref_delta, window: 10, depth: 50 });
                     }
                 }
@@ -1022,6 +1074,7 @@ pub fn run(run: &'static Run) {
         },
         |c| eval_full(fix, c),
     );
+    lap("git-delta-full");
     run.sub_with(
         "git-delta-chain",
         vkit::Opts::default().chunk(16),
